@@ -15,8 +15,12 @@ exchange (ack, retransmission, ack) brings the receiver fully up to date and emp
 window — before the `fix:` commit the second was false (a receiver that had pruned the sender's
 reference input never answered, so the window never moved). What remains decided on traces only
 is the session level above the link (frames advance again, no Disconnected event; monitor clause
-`no-progress`, families loss/specack) and the handshake under loss (C12_handshake covers its
-safety).
+`no-progress`, families loss/specack). The handshake under loss: `C12_handshake` is its safety
+(Running only after NUM_SYNC_PACKETS matched round trips), `C05_handshake_round`,
+`C05_handshake_retry`, `C05_handshake_completes` its liveness in the bounded-recovery form: from
+every synchronizing state with a request outstanding — there always is one — `r` round trips that
+come through make the endpoint Running, whatever was lost before, and the retry timer keeps
+offering new ones.
 -/
 import GgrsModel.Model.Inventory
 import GgrsModel.Proofs.Endpoint
@@ -108,3 +112,135 @@ example : RInv (Endpoint.new [0] 1 2 1 8 2000 500 60 none 7 0) ⟨0, [[5], [6]],
   RInv_new [0] 1 2 1 8 2000 500 60 none 7 0 ⟨0, [[5], [6]], 1⟩ rfl (by decide) (by decide)
 
 end Ggrs
+
+namespace Ggrs.Endpoint
+
+/-- While synchronizing, a request is outstanding: there is a nonce whose reply would count. -/
+def HsLive (e : Endpoint) (r : Nat) : Prop :=
+  e.state = .synchronizing ∧ e.syncRemaining = r ∧ e.remoteMagic = 0 ∧ e.syncRandomRequests ≠ []
+
+theorem addNonce_mem (l : List Nat) (x : Nat) : x ∈ (if l.contains x then l else l ++ [x]) ∧ (if l.contains x then l else l ++ [x]) ≠ [] := by
+  by_cases hc : l.contains x = true
+  · simp only [hc, if_true]
+    have : x ∈ l := by simpa using hc
+    exact ⟨this, fun h0 => by rw [h0] at this; cases this⟩
+  · simp only [hc, Bool.false_eq_true, if_false]
+    exact ⟨by simp, by simp⟩
+
+theorem sendSyncRequest_live (e : Endpoint) (now : Nat) :
+    (e.sendSyncRequest now).state = e.state ∧ (e.sendSyncRequest now).syncRemaining = e.syncRemaining ∧
+    (e.sendSyncRequest now).remoteMagic = e.remoteMagic ∧ (e.sendSyncRequest now).magic = e.magic ∧
+    (e.sendSyncRequest now).syncRandomRequests ≠ [] ∧
+    ∃ x, x ∈ (e.sendSyncRequest now).syncRandomRequests ∧
+      (e.sendSyncRequest now).sendQueue = e.sendQueue ++ [⟨e.magic, .syncRequest x⟩] := by
+  unfold sendSyncRequest takeNonce queueMessage
+  cases hn : e.nonceTape with
+  | nil => exact ⟨rfl, rfl, rfl, rfl, (addNonce_mem _ 0).2, 0, (addNonce_mem _ 0).1, rfl⟩
+  | cons x rest => exact ⟨rfl, rfl, rfl, rfl, (addNonce_mem _ x).2, x, (addNonce_mem _ x).1, rfl⟩
+
+theorem noteReceived_hs (e : Endpoint) (now : Nat) :
+    (e.noteReceived now).state = e.state ∧ (e.noteReceived now).syncRemaining = e.syncRemaining ∧
+    (e.noteReceived now).syncRandomRequests = e.syncRandomRequests ∧ (e.noteReceived now).remoteMagic = e.remoteMagic := by
+  unfold noteReceived
+  simp only
+  split <;> exact ⟨rfl, rfl, rfl, rfl⟩
+
+theorem onSyncReply_round (e1 : Endpoint) (now magic x r : Nat) (hst : e1.state = .synchronizing)
+    (hrem : e1.syncRemaining = r + 1) (hmag : e1.remoteMagic = 0) (hx : x ∈ e1.syncRandomRequests) :
+    (r = 0 ∧ (e1.onSyncReply now magic x).state = .running ∧ (e1.onSyncReply now magic x).remoteMagic = magic) ∨
+    (r > 0 ∧ HsLive (e1.onSyncReply now magic x) r ∧ ∃ y, y ∈ (e1.onSyncReply now magic x).syncRandomRequests ∧
+      (⟨(e1.onSyncReply now magic x).magic, .syncRequest y⟩ : Msg) ∈ (e1.onSyncReply now magic x).sendQueue) := by
+  unfold onSyncReply
+  have c1 : (e1.state != .synchronizing) = false := by rw [hst]; rfl
+  have c2 : (!e1.syncRandomRequests.contains x) = false := by simp [hx]
+  simp only [c1, c2, Bool.false_eq_true, if_false, hrem, Nat.add_sub_cancel]
+  by_cases hr : r > 0
+  · rw [if_pos hr]
+    right
+    obtain ⟨a, b, c, m, d, y, hy, hq⟩ := sendSyncRequest_live
+      ({ e1 with syncRandomRequests := e1.syncRandomRequests.filter (· != x), syncRemaining := r,
+                 eventQueue := e1.eventQueue ++ [ProtoEvent.synchronizing NUM_SYNC_PACKETS (NUM_SYNC_PACKETS - r)] }) now
+    refine ⟨hr, ⟨a.trans hst, b, c.trans hmag, d⟩, y, hy, ?_⟩
+    rw [hq, m]
+    simp
+  · have hr0 : r = 0 := by omega
+    rw [if_neg hr]
+    left
+    exact ⟨hr0, rfl, rfl⟩
+
+/-- **C05, one handshake round trip.** An endpoint that is synchronizing with `r + 1` round trips to
+go handles the reply to ANY request it has outstanding — however many of its requests and of the
+peer's replies were lost before, and whatever else arrived in between: with `r = 0` it is Running
+afterwards; with `r > 0` it is still synchronizing with `r` to go, has sent the next request, and
+again has a request outstanding. -/
+theorem C05_handshake_round (e : Endpoint) (now : Nat) (magic x : Nat) (r : Nat) (h : HsLive e (r + 1))
+    (hx : x ∈ e.syncRandomRequests) :
+    ∃ e', e.handleMessage now ⟨magic, .syncReply x⟩ = .ok e' ∧
+      ((r = 0 ∧ e'.state = .running ∧ e'.remoteMagic = magic) ∨
+       (r > 0 ∧ HsLive e' r ∧ ∃ y, y ∈ e'.syncRandomRequests ∧ (⟨e'.magic, .syncRequest y⟩ : Msg) ∈ e'.sendQueue)) := by
+  obtain ⟨hst, hrem, hmag, _⟩ := h
+  unfold handleMessage
+  have h1 : (e.state == .shutdown) = false := by rw [hst]; rfl
+  have h2 : (e.remoteMagic != 0 && magic != e.remoteMagic) = false := by simp [hmag]
+  simp only [h1, h2, Bool.false_eq_true, if_false]
+  obtain ⟨n1, n2, n3, n4⟩ := noteReceived_hs e now
+  exact ⟨_, rfl, onSyncReply_round (e.noteReceived now) now magic x r (n1.trans hst) (n2.trans hrem) (n4.trans hmag)
+    (by rw [n3]; exact hx)⟩
+
+/-- The retry timer: a synchronizing endpoint polled more than `SYNC_RETRY_INTERVAL` after its last
+request sends another one, which is then outstanding (so a lost request or reply is always
+followed by a new chance). -/
+theorem C05_handshake_retry (e : Endpoint) (now : Nat) (cs : List ConnStatus) (r : Nat) (h : HsLive e r)
+    (ht : e.lastSyncRequestTime + ms SYNC_RETRY_INTERVAL < now) :
+    ∃ e', e.pollState now cs = .ok e' ∧ HsLive e' r ∧
+      ∃ y, y ∈ e'.syncRandomRequests ∧ e'.sendQueue = e.sendQueue ++ [⟨e.magic, .syncRequest y⟩] := by
+  obtain ⟨hst, hrem, hmag, _⟩ := h
+  unfold pollState
+  simp only [hst, ht, if_true]
+  obtain ⟨a, b, c, _, d, y, hy, hq⟩ := sendSyncRequest_live e now
+  exact ⟨_, rfl, ⟨a.trans hst, b.trans hrem, c.trans hmag, d⟩, y, hy, hq⟩
+
+/-- A freshly synchronizing endpoint has a request outstanding. -/
+theorem C05_handshake_start (e0 e1 : Endpoint) (now : Nat) (hm : e0.remoteMagic = 0)
+    (h : e0.synchronize now = .ok e1) : HsLive e1 NUM_SYNC_PACKETS := by
+  unfold synchronize at h
+  simp only [bind, Except.bind, ensure, pure, Except.pure] at h
+  by_cases hc : (e0.state == ProtoState.initializing) = true
+  · simp only [hc, if_true] at h
+    cases h
+    obtain ⟨a, b, c, _, d, _⟩ := sendSyncRequest_live
+      ({ e0 with state := .synchronizing, syncRemaining := NUM_SYNC_PACKETS, statsStartTime := now / 1000 }) now
+    exact ⟨a, b, c.trans hm, d⟩
+  · simp only [hc, Bool.false_eq_true, if_false] at h
+    cases h
+
+/-- `k` clean round trips: each time, the reply to some outstanding request is handled. -/
+inductive HsRounds : Endpoint → Nat → Endpoint → Prop
+  | zero (e : Endpoint) : HsRounds e 0 e
+  | succ (e e1 e2 : Endpoint) (k now magic x : Nat) : x ∈ e.syncRandomRequests →
+      e.handleMessage now ⟨magic, .syncReply x⟩ = .ok e1 → HsRounds e1 k e2 → HsRounds e (k + 1) e2
+
+/-- **C05, the handshake completes.** From ANY synchronizing state with `r` round trips to go and a
+request outstanding — whatever was lost, duplicated or delayed before — `r` clean round trips (the
+reply to an outstanding request comes through) make the endpoint Running; and a next clean round
+trip is always possible on the way: after each one a fresh request has been sent and is
+outstanding (`C05_handshake_round`), and the retry timer sends more (`C05_handshake_retry`). -/
+theorem C05_handshake_completes : ∀ (r : Nat) (e e' : Endpoint), HsLive e r → HsRounds e r e' → r > 0 →
+    e'.state = .running := by
+  intro r
+  induction r with
+  | zero => intro e e' _ _ h; omega
+  | succ k ih =>
+    intro e e' hl hr _
+    cases hr with
+    | succ _ e1 _ _ now magic x hx hm hrest =>
+      obtain ⟨e1', he1, hcase⟩ := C05_handshake_round e now magic x k hl hx
+      rw [hm] at he1
+      cases he1
+      rcases hcase with ⟨hk, hrun, _⟩ | ⟨hk, hl1, _⟩
+      · subst hk
+        cases hrest
+        exact hrun
+      · exact ih e1 e' hl1 hrest hk
+
+end Ggrs.Endpoint
